@@ -22,6 +22,7 @@ import (
 	"errors"
 	"sort"
 	"strings"
+	"syscall"
 	"time"
 
 	"deps.dev/util/resolve"
@@ -32,11 +33,11 @@ import (
 	"verifharness/sx"
 )
 
-func vkSx(vk resolve.VersionKey) sx.V {
+func pyVkSx(vk resolve.VersionKey) sx.V {
 	return sx.L(sx.B(vk.Name), sx.Int(int(vk.VersionType)), sx.B(vk.Version))
 }
 
-func sxVK(v sx.V) resolve.VersionKey {
+func pySxVK(v sx.V) resolve.VersionKey {
 	return resolve.VersionKey{
 		PackageKey:  resolve.PackageKey{System: resolve.PyPI, Name: v.Nth(0).Str()},
 		VersionType: resolve.VersionType(v.Nth(1).Int()),
@@ -44,14 +45,14 @@ func sxVK(v sx.V) resolve.VersionKey {
 	}
 }
 
-func reqSx(r resolve.RequirementVersion) sx.V {
+func pyReqSx(r resolve.RequirementVersion) sx.V {
 	t := r.Type
 	return sx.L(sx.B(r.Name), sx.Int(int(r.VersionType)), sx.B(r.Version), dumpDep(&t))
 }
 
-func sxReq(v sx.V) resolve.RequirementVersion {
+func pySxReq(v sx.V) resolve.RequirementVersion {
 	return resolve.RequirementVersion{
-		VersionKey: sxVK(v),
+		VersionKey: pySxVK(v),
 		Type:       buildDep(v.Nth(3)),
 	}
 }
@@ -101,32 +102,42 @@ func pyObserve(g *resolve.Graph, err error) sx.V {
 	var nodes []sx.V
 	nerrs := 0
 	for _, n := range g.Nodes {
-		nodes = append(nodes, vkSx(n.Version))
+		nodes = append(nodes, pyVkSx(n.Version))
 		nerrs += len(n.Errors)
 	}
 	var edges []sx.V
 	for _, e := range g.Edges {
 		t := e.Type
-		edges = append(edges, sx.L(vkSx(g.Nodes[e.From].Version), vkSx(g.Nodes[e.To].Version), sx.B(e.Requirement), dumpDep(&t)))
+		edges = append(edges, sx.L(pyVkSx(g.Nodes[e.From].Version), pyVkSx(g.Nodes[e.To].Version), sx.B(e.Requirement), dumpDep(&t)))
 	}
 	return sx.L(sx.Sym("ok"), sx.L(nodes...), sx.L(edges...), sx.Int(nerrs), sx.Int(canon))
 }
 
 // A resolution of these small universes takes milliseconds. A resolver that no longer terminates
 // (the main loop polls the context every 100 rounds, backtrack does not) is abandoned in its
-// goroutine and reported as ("timeout"), which the model never answers. After a few of them the
-// allowance shrinks, and after more the process stops resolving at all, so that a run ends.
+// goroutine and reported as ("timeout"), which the model never answers. The allowance is CPU time
+// of this process, not wall-clock time, so that a stalled machine cannot produce a timeout. After a
+// few of them the allowance shrinks, and after more the process stops resolving at all, so that a
+// run ends.
 var pyTimeouts int
+
+func pyCPU() time.Duration {
+	var ru syscall.Rusage
+	if err := syscall.Getrusage(syscall.RUSAGE_SELF, &ru); err != nil {
+		return 0
+	}
+	return time.Duration(ru.Utime.Nano() + ru.Stime.Nano())
+}
 
 func pyResolve(c resolve.Client, root resolve.VersionKey) sx.V {
 	if pyTimeouts >= 8 {
 		return sx.L(sx.Sym("timeout"))
 	}
-	limit := 10 * time.Second
+	limit := 20 * time.Second
 	if pyTimeouts >= 3 {
-		limit = 200 * time.Millisecond
+		limit = 2 * time.Second
 	}
-	ctx, cancel := context.WithTimeout(context.Background(), limit)
+	ctx, cancel := context.WithCancel(context.Background())
 	defer cancel()
 	done := make(chan sx.V, 1)
 	go func() {
@@ -143,35 +154,40 @@ func pyResolve(c resolve.Client, root resolve.VersionKey) sx.V {
 		}
 		done <- pyObserve(g, err)
 	}()
-	select {
-	case o := <-done:
-		if o.Kind == 2 && len(o.L) == 1 && o.L[0].B == "timeout" {
-			pyTimeouts++
+	start := pyCPU()
+	tick := time.NewTicker(50 * time.Millisecond)
+	defer tick.Stop()
+	for {
+		select {
+		case o := <-done:
+			return o
+		case <-tick.C:
+			if pyCPU()-start > limit {
+				pyTimeouts++
+				cancel()
+				return sx.L(sx.Sym("timeout"))
+			}
 		}
-		return o
-	case <-time.After(limit + time.Second):
-		pyTimeouts++
-		return sx.L(sx.Sym("timeout"))
 	}
 }
 
 // ---- recording client
 
-type recEntry struct {
+type pyRecEntry struct {
 	key sx.V
 	val sx.V
 }
 
-type recClient struct {
+type pyRecClient struct {
 	inner        *resolve.LocalClient
-	versions     []recEntry
-	requirements []recEntry
-	matching     []recEntry
+	versions     []pyRecEntry
+	requirements []pyRecEntry
+	matching     []pyRecEntry
 	seen         map[string]string
 	inconsistent bool
 }
 
-func (rc *recClient) note(tab *[]recEntry, tag string, key, val sx.V) {
+func (rc *pyRecClient) note(tab *[]pyRecEntry, tag string, key, val sx.V) {
 	k := tag + key.String()
 	v := val.String()
 	if old, ok := rc.seen[k]; ok {
@@ -181,14 +197,14 @@ func (rc *recClient) note(tab *[]recEntry, tag string, key, val sx.V) {
 		return
 	}
 	rc.seen[k] = v
-	*tab = append(*tab, recEntry{key, val})
+	*tab = append(*tab, pyRecEntry{key, val})
 }
 
-func (rc *recClient) Version(ctx context.Context, vk resolve.VersionKey) (resolve.Version, error) {
+func (rc *pyRecClient) Version(ctx context.Context, vk resolve.VersionKey) (resolve.Version, error) {
 	return rc.inner.Version(ctx, vk)
 }
 
-func (rc *recClient) Versions(ctx context.Context, pk resolve.PackageKey) ([]resolve.Version, error) {
+func (rc *pyRecClient) Versions(ctx context.Context, pk resolve.PackageKey) ([]resolve.Version, error) {
 	vs, err := rc.inner.Versions(ctx, pk)
 	if err != nil {
 		rc.note(&rc.versions, "V", sx.B(pk.Name), sx.L(sx.Int(0)))
@@ -196,41 +212,41 @@ func (rc *recClient) Versions(ctx context.Context, pk resolve.PackageKey) ([]res
 	}
 	var items []sx.V
 	for _, v := range vs {
-		items = append(items, vkSx(v.VersionKey))
+		items = append(items, pyVkSx(v.VersionKey))
 	}
 	rc.note(&rc.versions, "V", sx.B(pk.Name), sx.L(sx.Int(1), sx.L(items...)))
 	return vs, nil
 }
 
-func (rc *recClient) Requirements(ctx context.Context, vk resolve.VersionKey) ([]resolve.RequirementVersion, error) {
+func (rc *pyRecClient) Requirements(ctx context.Context, vk resolve.VersionKey) ([]resolve.RequirementVersion, error) {
 	rs, err := rc.inner.Requirements(ctx, vk)
 	if err != nil {
-		rc.note(&rc.requirements, "R", vkSx(vk), sx.L(sx.Int(0)))
+		rc.note(&rc.requirements, "R", pyVkSx(vk), sx.L(sx.Int(0)))
 		return nil, err
 	}
 	var items []sx.V
 	for _, r := range rs {
-		items = append(items, reqSx(r))
+		items = append(items, pyReqSx(r))
 	}
-	rc.note(&rc.requirements, "R", vkSx(vk), sx.L(sx.Int(1), sx.L(items...)))
+	rc.note(&rc.requirements, "R", pyVkSx(vk), sx.L(sx.Int(1), sx.L(items...)))
 	return rs, nil
 }
 
-func (rc *recClient) MatchingVersions(ctx context.Context, vk resolve.VersionKey) ([]resolve.Version, error) {
+func (rc *pyRecClient) MatchingVersions(ctx context.Context, vk resolve.VersionKey) ([]resolve.Version, error) {
 	vs, err := rc.inner.MatchingVersions(ctx, vk)
 	if err != nil {
-		rc.note(&rc.matching, "M", vkSx(vk), sx.L(sx.Int(0)))
+		rc.note(&rc.matching, "M", pyVkSx(vk), sx.L(sx.Int(0)))
 		return nil, err
 	}
 	var items []sx.V
 	for _, v := range vs {
-		items = append(items, vkSx(v.VersionKey))
+		items = append(items, pyVkSx(v.VersionKey))
 	}
-	rc.note(&rc.matching, "M", vkSx(vk), sx.L(sx.Int(1), sx.L(items...)))
+	rc.note(&rc.matching, "M", pyVkSx(vk), sx.L(sx.Int(1), sx.L(items...)))
 	return vs, nil
 }
 
-func entriesSx(es []recEntry) sx.V {
+func pyEntriesSx(es []pyRecEntry) sx.V {
 	var out []sx.V
 	for _, e := range es {
 		out = append(out, sx.L(e.key, e.val))
@@ -240,17 +256,17 @@ func entriesSx(es []recEntry) sx.V {
 
 // ---- table client (answers only from a recorded table)
 
-type tabClient struct {
+type pyTabClient struct {
 	versions     map[string]sx.V
 	requirements map[string]sx.V
 	matching     map[string]sx.V
 	missing      int
 }
 
-var errTable = errors.New("table client: error answer")
+var pyErrTable = errors.New("table client: error answer")
 
-func newTabClient(tab sx.V) *tabClient {
-	tc := &tabClient{versions: map[string]sx.V{}, requirements: map[string]sx.V{}, matching: map[string]sx.V{}}
+func pyNewTabClient(tab sx.V) *pyTabClient {
+	tc := &pyTabClient{versions: map[string]sx.V{}, requirements: map[string]sx.V{}, matching: map[string]sx.V{}}
 	for _, e := range tab.Nth(0).List() {
 		tc.versions[e.Nth(0).String()] = e.Nth(1)
 	}
@@ -263,62 +279,62 @@ func newTabClient(tab sx.V) *tabClient {
 	return tc
 }
 
-func (tc *tabClient) answer(m map[string]sx.V, key sx.V) ([]sx.V, error) {
+func (tc *pyTabClient) answer(m map[string]sx.V, key sx.V) ([]sx.V, error) {
 	a, ok := m[key.String()]
 	if !ok {
 		tc.missing++
-		return nil, errTable
+		return nil, pyErrTable
 	}
 	if a.Nth(0).Int() == 0 {
-		return nil, errTable
+		return nil, pyErrTable
 	}
 	return a.Nth(1).List(), nil
 }
 
-func (tc *tabClient) Version(ctx context.Context, vk resolve.VersionKey) (resolve.Version, error) {
+func (tc *pyTabClient) Version(ctx context.Context, vk resolve.VersionKey) (resolve.Version, error) {
 	tc.missing++
-	return resolve.Version{}, errTable
+	return resolve.Version{}, pyErrTable
 }
 
-func (tc *tabClient) Versions(ctx context.Context, pk resolve.PackageKey) ([]resolve.Version, error) {
+func (tc *pyTabClient) Versions(ctx context.Context, pk resolve.PackageKey) ([]resolve.Version, error) {
 	l, err := tc.answer(tc.versions, sx.B(pk.Name))
 	if err != nil {
 		return nil, err
 	}
 	var out []resolve.Version
 	for _, v := range l {
-		out = append(out, resolve.Version{VersionKey: sxVK(v)})
+		out = append(out, resolve.Version{VersionKey: pySxVK(v)})
 	}
 	return out, nil
 }
 
-func (tc *tabClient) Requirements(ctx context.Context, vk resolve.VersionKey) ([]resolve.RequirementVersion, error) {
-	l, err := tc.answer(tc.requirements, vkSx(vk))
+func (tc *pyTabClient) Requirements(ctx context.Context, vk resolve.VersionKey) ([]resolve.RequirementVersion, error) {
+	l, err := tc.answer(tc.requirements, pyVkSx(vk))
 	if err != nil {
 		return nil, err
 	}
 	var out []resolve.RequirementVersion
 	for _, r := range l {
-		out = append(out, sxReq(r))
+		out = append(out, pySxReq(r))
 	}
 	return out, nil
 }
 
-func (tc *tabClient) MatchingVersions(ctx context.Context, vk resolve.VersionKey) ([]resolve.Version, error) {
-	l, err := tc.answer(tc.matching, vkSx(vk))
+func (tc *pyTabClient) MatchingVersions(ctx context.Context, vk resolve.VersionKey) ([]resolve.Version, error) {
+	l, err := tc.answer(tc.matching, pyVkSx(vk))
 	if err != nil {
 		return nil, err
 	}
 	var out []resolve.Version
 	for _, v := range l {
-		out = append(out, resolve.Version{VersionKey: sxVK(v)})
+		out = append(out, resolve.Version{VersionKey: pySxVK(v)})
 	}
 	return out, nil
 }
 
 // ---- oracle tables (what resolve.go asks of semver and of the marker evaluator)
 
-func subsets(names []string) [][]string {
+func pySubsets(names []string) [][]string {
 	out := [][]string{nil}
 	for _, n := range names {
 		k := len(out)
@@ -373,7 +389,7 @@ func pyOracles(u pyUniverse) (oracles sx.V, direct sx.V) {
 	sort.Strings(markers)
 	var mk []sx.V
 	for _, m := range markers {
-		for _, s := range subsets(extras) {
+		for _, s := range pySubsets(extras) {
 			em := map[string]bool{}
 			var el []sx.V
 			for _, e := range s {
@@ -459,8 +475,8 @@ func pyOracles(u pyUniverse) (oracles sx.V, direct sx.V) {
 	return sx.L(sx.L(mk...), sx.L(cons...), sx.L(prem...), sx.L(vlt...)), sx.L(dir...)
 }
 
-// canonObs sorts what came out of maps: the nodes after the root and the edges.
-func canonObs(o sx.V) sx.V {
+// pyCanonObs sorts what came out of maps: the nodes after the root and the edges.
+func pyCanonObs(o sx.V) sx.V {
 	if o.Kind != 2 || len(o.L) != 5 || o.L[0].Kind != 1 || o.L[0].B != "ok" {
 		return o
 	}
@@ -474,7 +490,7 @@ func canonObs(o sx.V) sx.V {
 	return sx.L(o.L[0], sx.L(nodes...), sx.L(edges...), o.L[3], o.L[4])
 }
 
-func tableWF(rc *recClient) bool {
+func pyTableWF(rc *pyRecClient) bool {
 	for _, e := range rc.versions {
 		if e.val.Nth(0).Int() == 1 {
 			for _, v := range e.val.Nth(1).List() {
@@ -512,17 +528,17 @@ func init() {
 		oracles, direct := pyOracles(u)
 		var per, cases []sx.V
 		for _, rv := range a.Nth(1).List() {
-			root := sxVK(rv)
+			root := pySxVK(rv)
 			// (a) raw LocalClient, fresh per run
 			var raws []sx.V
 			for i := 0; i < 2; i++ {
-				raws = append(raws, canonObs(pyResolve(u.client(), root)))
+				raws = append(raws, pyCanonObs(pyResolve(u.client(), root)))
 			}
 			nondet := raws[1].String() != raws[0].String()
 			// (b) recording client
-			rc := &recClient{inner: u.client(), seen: map[string]string{}}
-			rec := canonObs(pyResolve(rc, root))
-			table := sx.L(entriesSx(rc.versions), entriesSx(rc.requirements), entriesSx(rc.matching))
+			rc := &pyRecClient{inner: u.client(), seen: map[string]string{}}
+			rec := pyCanonObs(pyResolve(rc, root))
+			table := sx.L(pyEntriesSx(rc.versions), pyEntriesSx(rc.requirements), pyEntriesSx(rc.matching))
 			rawDiffers := raws[0].String() != rec.String()
 			rawObs := sx.L()
 			if rawDiffers || nondet {
@@ -542,7 +558,7 @@ func init() {
 				}
 			}
 			per = append(per, sx.L(rec, sx.Bool(rawDiffers), rawObs, sx.Bool(nondet), sx.Bool(rc.inconsistent),
-				sx.Bool(tableWF(rc)), sx.Int(rejected)))
+				sx.Bool(pyTableWF(rc)), sx.Int(rejected)))
 			cases = append(cases, sx.L(rv, table))
 		}
 		return sx.L(oracles.Nth(0), direct, sx.L(per...), sx.B(sx.L(oracles, sx.L(cases...)).String()))
@@ -551,9 +567,9 @@ func init() {
 	register("pypi", func(a sx.V) sx.V {
 		var out []sx.V
 		for _, c := range a.Nth(1).List() {
-			root := sxVK(c.Nth(0))
-			tc := newTabClient(c.Nth(1))
-			obs := canonObs(pyResolve(tc, root))
+			root := pySxVK(c.Nth(0))
+			tc := pyNewTabClient(c.Nth(1))
+			obs := pyCanonObs(pyResolve(tc, root))
 			if tc.missing > 0 {
 				obs = sx.L(sx.Sym("missing"))
 			}
